@@ -90,7 +90,8 @@ Explicit(x) ==
     [] x = "override" -> {Entry("build", "override", v, <<"xo">>) : v \in PathVars}
                          \cup {Entry("launch", "override", v, <<"xl">>) : v \in PathVars}
 
-C10Env0(has) == [v \in PathVars |-> IF has THEN Val(<<"/usr">>) ELSE Unset]
+\* starting environment: the variables unset, set, or set to the empty string
+C10Env0(has) == [v \in PathVars |-> CASE has = "set" -> Val(<<"/usr">>) [] has = "empty" -> Val(<<>>) [] OTHER -> Unset]
 
 \* the property, per variable: prepended with ":" exactly when the directory counts
 C10Law(kinds, q, var, cur) ==
@@ -114,7 +115,7 @@ C10Vector(kinds, x, has) ==
    results |-> [q \in QueryScopes |-> Apply(Explicit(x), q, LayerPaths(kinds), C10Env0(has))]]
 
 C10Run(kindSet) ==
-  \A kinds \in [PathDirs -> kindSet], x \in {"none", "append", "override"}, has \in BOOLEAN :
+  \A kinds \in [PathDirs -> kindSet], x \in {"none", "append", "override"}, has \in {"unset", "set", "empty"} :
     /\ C10Check(kinds, x, has)
     /\ (EmitTR => PrintT(<<"V10", ToJson(C10Vector(kinds, x, has))>>))
 
